@@ -5,5 +5,6 @@ CONSTANTS
   OpsUsed = {"*", "/", "%", "&", "+", "-", "|", "^", "=", "!=", "<>", "<", "<=", ">", ">=", "=~", "!~", "AND", "OR"}
   SubOps = {"*"}
   Nest = {1}
+  Lits = {}
 INVARIANTS Agree Fold ReparseStable
 CHECK_DEADLOCK FALSE
